@@ -157,6 +157,15 @@ func (*BadAllotmentSum) Severity() Severity {
 	return ErrorSeverity
 }
 
+type DivByZero struct{}
+
+func (e *DivByZero) Message() string {
+	return "Division by zero"
+}
+func (*DivByZero) Severity() Severity {
+	return ErrorSeverity
+}
+
 type FixedPortionVariable struct {
 	Value big.Rat
 }
